@@ -37,12 +37,20 @@ def showBackoff : Backoff → String
 def parseWords (s : String) : Option (List Nat) :=
   if s = "-" then some [] else (s.splitOn ",").mapM (fun w => w.toNat?)
 
-/-- `retry <expr…> n <n> pw <bits> ws <w,w,…>` ↦ `err` | `<delay> <wordsConsumed>` -/
+/-- drop the optional trailing `via <route>` of a request: it names the API route the harness used to build the object
+(`d` constructors nested directly, `b` `BackoffBuilder.BaseBackoff` + `WithLimit`/`WithJitter`/`WithJitterBound` + `Build`);
+the model has one notion of construction (`mk*`; `Retry.build` is the same nesting), so the answer does not depend on it. -/
+def dropVia (toks : List String) : List String :=
+  match toks.reverse with
+  | _ :: "via" :: rest => rest.reverse
+  | _ => toks
+
+/-- `retry <expr…> n <n> pw <bits> ws <w,w,…> [via <route>]` ↦ `err` | `<delay> <wordsConsumed>` -/
 def handleRetry (toks : List String) : String :=
   match parseBackoff toks with
   | none => "bad-op"
   | some (ob, rest) =>
-    match rest with
+    match dropVia rest with
     | ["n", n, "pw", pw, "ws", ws] =>
       match n.toInt?, f64? pw, parseWords ws with
       | some n, some pw, some ws =>
@@ -54,12 +62,15 @@ def handleRetry (toks : List String) : String :=
       | _, _, _ => "bad-op"
     | _ => "bad-op"
 
-/-- `ctor <expr…>` ↦ `ok` | `err` -/
+/-- `ctor <expr…> [via <route>]` ↦ `ok` | `err` -/
 def handleCtor (toks : List String) : String :=
   match parseBackoff toks with
-  | some (some _, []) => "ok"
-  | some (none, []) => "err"
-  | _ => "bad-op"
+  | some (ob, rest) =>
+    if !(dropVia rest).isEmpty then "bad-op" else
+    match ob with
+    | some _ => "ok"
+    | none => "err"
+  | none => "bad-op"
 
 def parseBytes (s : String) : Option (List Nat) :=
   if s = "-" then some [] else
